@@ -1,4 +1,4 @@
-import FlatccModel.Refmap
+import FlatccModel.RefmapFull
 /-!
 # C18 — the reference map is a map (refmap.c)
 
@@ -44,5 +44,84 @@ theorem C18_inv_satisfiable (hash : Nat → Nat) : Inv hash empty8 := by
   refine ⟨by simp [empty8], by simp [empty8], ⟨0, by simp [empty8], empty8_src 0⟩, ?_, ?_⟩
   · intro j1 j2 _ _ h; exact absurd (empty8_src j1) h
   · intro t i _ h; exact absurd (empty8_src t) h
+
+/-! ## the full statement: every history of public calls behaves like the abstract map `spec` -/
+
+/-- **C18**: for every hash function and every history, lookup in the model is the abstract map. -/
+theorem C18_map (hash : Nat → Nat) (ops : List Op) (k : Nat) :
+    find' hash (run hash ops) k = spec ops.reverse k := by
+  have := (run_spec hash ops.reverse).2 k
+  rw [List.reverse_reverse] at this
+  exact this
+
+/-- `flatcc_refmap_insert` returns the reference it was given. -/
+theorem C18_insert_returns_ref (hash : Nat → Nat) (m : Map) (s : Nat) (r : Int) : (insert hash m s r).2 = r := by
+  unfold insert; split <;> rfl
+
+/-- the rehash loop inside `resize` never itself exceeds the load factor -/
+theorem C18_no_nested_resize (hash : Nat → Nat) (ops : List Op) : (run hash ops).nested = false := by
+  have := (run_spec hash ops.reverse).1.1
+  rw [List.reverse_reverse] at this
+  exact this
+
+/-- every reachable state satisfies the invariant (exported for other properties) -/
+theorem C18_reachable_good (hash : Nat → Nat) (ops : List Op) : Good hash (run hash ops) := by
+  have := (run_spec hash ops.reverse).1
+  rw [List.reverse_reverse] at this
+  exact this
+
+/-- the probe loops of `find`/`insert` terminate at an empty slot: a reachable map with a table has one -/
+theorem C18_empty_slot (hash : Nat → Nat) (ops : List Op) :
+    (run hash ops).rm.buckets = 0 ∨ ∃ e, e < (run hash ops).rm.buckets ∧ srcAt (run hash ops).rm e = 0 := by
+  rcases (C18_reachable_good hash ops).2 with ⟨h, _, _⟩ | hT
+  · exact Or.inl h
+  · exact Or.inr hT.inv.empty
+
+/-- every value returned by a public call in a history is the one `spec` predicts:
+`find` returns the abstract content, `insert` returns its argument, the others return 0 -/
+theorem C18_step_result (hash : Nat → Nat) (ops : List Op) (op : Op) :
+    (step hash (run hash ops) op).2 =
+      match op with
+      | .ins _ r => r
+      | .fnd s => spec ops.reverse s
+      | _ => 0 := by
+  cases op with
+  | ins s r => exact C18_insert_returns_ref hash _ s r
+  | fnd s => exact C18_map hash ops s
+  | rsz n => rfl
+  | rst => rfl
+  | clr => rfl
+
+/-! ## non-vacuity: a concrete history (two growths, update in place, explicit resize, reset, clear) -/
+
+def demoOps : List Op :=
+  [.ins 8 1, .ins 16 2, .ins 24 3, .ins 32 4, .ins 40 5, .ins 48 6, .ins 16 (-7), .fnd 16,
+   .ins 0 9, .ins 56 8, .ins 64 9, .ins 72 10, .ins 80 11, .ins 88 12, .ins 96 13, .rsz 100,
+   .ins 24 33, .rsz 0, .rst, .ins 8 (-1), .ins 5 55, .clr, .ins 7 77]
+
+/-- a 20-call history for a deliberately bad hash (all keys collide into 3 home slots) -/
+def demoOps2 : List Op :=
+  [.ins 8 1, .ins 16 2, .ins 24 3, .ins 32 4, .ins 40 5, .ins 48 6, .ins 16 (-7), .fnd 16,
+   .ins 0 9, .ins 56 8, .rsz 20, .ins 24 33, .rsz 0, .fnd 3, .rst, .ins 8 (-1), .ins 5 55, .fnd 5, .clr, .ins 7 77]
+
+set_option maxRecDepth 10000 in
+example : [0, 5, 7, 8, 16, 24, 56, 9].all (fun k =>
+    find' (fun x => x % 3) (run (fun x => x % 3) (demoOps2.take 14)) k == spec (demoOps2.take 14).reverse k) = true := by
+  decide
+
+set_option maxRecDepth 10000 in
+example : [0, 5, 7, 8, 16, 24, 56, 9].all (fun k =>
+    find' (fun x => x % 3) (run (fun x => x % 3) demoOps2) k == spec demoOps2.reverse k) = true := by decide
+
+set_option maxRecDepth 10000 in
+example : spec (demoOps2.take 14).reverse 16 = -7 ∧ spec (demoOps2.take 14).reverse 24 = 33 ∧
+    spec (demoOps2.take 14).reverse 0 = 0 ∧ spec demoOps2.reverse 7 = 77 ∧ spec demoOps2.reverse 8 = 0 := by decide
+
+/-- the real hash: 18 calls (two growths 8 → 16 → 64, explicit resize to 256 and back to 32), 12 live keys;
+evaluated by the kernel (`decide +kernel`, no extra axioms) because of the 64-bit multiplications -/
+example : (List.range 100).all (fun k =>
+    find' murmur (run murmur (demoOps.take 18)) k == spec (demoOps.take 18).reverse k) = true
+    ∧ (run murmur (demoOps.take 18)).count = 12 ∧ (run murmur (demoOps.take 18)).rm.buckets = 32
+    ∧ (run murmur (demoOps.take 17)).rm.buckets = 256 := by decide +kernel
 
 end Flatcc.Refmap
